@@ -187,9 +187,47 @@ def _bad_op(rng, sh, k, corrupt_fn=None):
              "rename_used", "rm_unknown", "set_ref_field", "bad_tagname", "empty", "blank",
              "dup_link", "grp_clash", "grp_tag_conflict", "readd_connected", "bad_value",
              "ref_clash", "ref_clash", "hdr_multi", "rename_malformed", "del_id", "placeholder_clash",
-             "invalid_then_rm", "self_mention", "unknown_then_clash"]
+             "invalid_then_rm", "self_mention", "unknown_then_clash", "hdr_bad_predefined", "header_add",
+             "grp_jstring", "unknown_then_malformed", "set_field_none"]
     kind = rng.choice(kinds)
     tags = gen_tags(rng, k)
+    if kind == "hdr_bad_predefined":
+        # a good tag followed, in the same H line, by a predefined tag with a wrong datatype / an invalid value
+        bad = rng.choice(["TS:Z:100", "VN:i:2", 'jj:J:"abc"', "TS:i:x", "VN:Z:9.9", "zq:i:1"])
+        return kind, [{"op": "add", "line": "H\tzq:i:7\t" + bad, "as": "str"},
+                      {"op": "add", "line": "H\tza:i:1\t" + bad, "as": rng.choice(["str", "obj"])}]
+    if kind == "header_add":
+        return kind, [{"op": "add", "line": "H\tzh:i:1", "as": "str"},
+                      {"op": "header_add", "tag": "zh", "value": rng.choice(["notanumber", "2", 2, 2.5, "a b"]),
+                       "dtype": rng.choice([None, None, "Z", "i", "f"])},
+                      {"op": "header_add", "tag": rng.choice(["VN", "TS", "zh"]), "value": rng.choice(["x", 5, "1.0"])}]
+    if kind == "grp_jstring" and v == "gfa2":
+        x = sh.fresh(rng)
+        y = rng.choice(segs) if segs else sh.fresh(rng)
+        rt = rng.choice("OU")
+        sfx = "+" if rt == "O" else ""
+        first = "%s\t%s\t%s%s\t%s" % (rt, x, y, sfx, rng.choice(['xx:J:"abc"', "xx:J:1", "xx:H:1a", "xx:B:c,", "xx:f:x"]))
+        sh.note(first)
+        return kind, [{"op": "add", "line": first, "as": "str"},
+                      {"op": "add", "line": "%s\t%s\t%s%s %s%s" % (rt, x, sh.fresh(rng), sfx, sh.fresh(rng), sfx), "as": "str"}]
+    if kind == "unknown_then_malformed" and v == "gfa2":
+        x, y = sh.fresh(rng), sh.fresh(rng)
+        g = "U\t%s\t%s %s" % (sh.fresh(rng), x, y)
+        sh.note(g)
+        ln = rng.choice(["E\t%s\t%s+\tY Z+\t0\t5\t5\t10$\t*" % (sh.fresh(rng), x),
+                         "G\t%s\t%s+\ta b-\t10\t*" % (sh.fresh(rng), x),
+                         "E\t%s\t%s+\t%s\t0\t5\t5\t10$\t*" % (sh.fresh(rng), x, y),
+                         "E\t%s\t%s+\t%s-\tx\t5\t5\t10$\t*" % (y, x, sh.fresh(rng))])
+        return kind, [{"op": "add", "line": g, "as": "str"}, {"op": "add", "line": ln, "as": rng.choice(["str", "obj"])}]
+    if kind == "set_field_none" and (sh.anon or ids):
+        if v == "gfa1":
+            fld = rng.choice(["from_segment", "overlap", "segment_names", "sequence", "name", "pos", "ID"])
+        else:
+            fld = rng.choice(["external", "sid", "slen", "sequence", "items", "disp", "var", "alignment", "s_beg", "name"])
+        tgt = {"text": rng.choice(sh.anon)} if (sh.anon and rng.random() < 0.5) else {"id": rng.choice(ids or ["x"])}
+        op = {"op": "set_field", "field": fld, "value": None}
+        op.update(tgt)
+        return kind, [op, {"op": "rm", "id": rng.choice(segs or ["x"]), "how": "rm"}]
     if kind == "self_mention":
         # a line uses its own identifier to refer to another line; with some probability a group has mentioned
         # the identifier before (so that a placeholder of unknown type carries it)
